@@ -104,6 +104,39 @@ theorem progress_inv {s : St} (h : Inv s) (hf : 0 < s.f) (hnf : s.dpc ≠ .retur
   | finishing => exact ⟨.d .ret, rfl, by simp [step, hd]⟩
   | returned => exact absurd hd hnf
 
+/-- an enabled non-spurious label shows up in the enabled *sets* the acceptor compares with the
+    harness's runnable set -/
+theorem enabled_of_step {s : St} {l : Label} (hsp : l.spurious = false) (h : (step s l).isSome = true) :
+    match l with
+    | .d _ => dEnabled s = true
+    | .w i _ => wEnabled s i = true ∧ i < s.ws.length := by
+  cases l with
+  | d a =>
+    simp only [dEnabled, List.any_eq_true]
+    refine ⟨a, ?_, h⟩
+    cases a with
+    | create j =>
+      have hj : j = s.i := by
+        simp only [step] at h
+        split at h
+        · split at h
+          · rename_i hc; exact hc.1
+          · simp at h
+        · simp at h
+      subst hj; simp [dActs]
+    | wake sp =>
+      cases sp with
+      | false => simp [dActs]
+      | true => simp [Label.spurious] at hsp
+    | lock | wait | relock | unlock | ret => simp [dActs]
+  | w i a =>
+    refine ⟨?_, ?_⟩
+    · simp only [wEnabled, List.any_eq_true]
+      exact ⟨a, by cases a <;> simp [wActs], h⟩
+    · cases hs : step s (.w i a) with
+      | none => rw [hs] at h; cases h
+      | some s' => exact lt_of_getElem? (w_step_facts hs).1
+
 /-! ## rank: remaining work, with a credit of 3 for a pending signal and 4 for a signal to come -/
 
 def wrank : W → Nat
